@@ -773,6 +773,18 @@ def build(E):
         return binsearch(F, bi, st, t, args)
     M["core::slice::<impl [T]>::binary_search_by_key"] = binsearch_by_key
 
+    def array_into_iter(F, bi, st, t, args):
+        v = E.expand(args[0][0])
+        return v if v != BOT and v[0] == "l" else None      # the by-value array iterator is abstracted by the array itself (length, join of the elements)
+    M["std::array::iter::<impl std::iter::IntoIterator for [T; N]>::into_iter"] = array_into_iter
+
+    def array_iter_next(F, bi, st, t, args):
+        v = lenval(F, st, args[0])
+        if v is None:
+            return None
+        return opt(v[3], True, v[2] > 0)
+    M["<std::array::IntoIter<T, N> as std::iter::Iterator>::next"] = array_iter_next
+
     def partition_point(F, bi, st, t, args):
         abscall.analyse_closure_args(F, bi, st, t, args[1][0] if len(args) > 1 else BOT)
         v = lenval(F, st, args[0])
@@ -909,7 +921,7 @@ core::tuple::<impl std::cmp::PartialEq for (U, T)>::eq core::tuple::<impl std::c
 <std::num::NonZero<T> as std::cmp::Ord>::cmp <std::num::NonZero<T> as std::cmp::PartialEq>::eq <std::num::NonZero<T> as std::cmp::PartialOrd>::partial_cmp <std::num::NonZero<T> as std::hash::Hash>::hash
 <std::boxed::Box<T, A> as std::hash::Hash>::hash <str as std::fmt::Debug>::fmt <std::io::Error as std::fmt::Display>::fmt <std::num::ParseIntError as std::fmt::Display>::fmt
 <std::str::Utf8Error as std::fmt::Display>::fmt <std::time::SystemTimeError as std::fmt::Display>::fmt
-core::slice::iter::<impl std::iter::IntoIterator for &'a [T]>::into_iter std::array::<impl std::iter::IntoIterator for &'a [T; N]>::into_iter std::array::iter::<impl std::iter::IntoIterator for [T; N]>::into_iter
+core::slice::iter::<impl std::iter::IntoIterator for &'a [T]>::into_iter std::array::<impl std::iter::IntoIterator for &'a [T; N]>::into_iter
 ?std::iter::IntoIterator::into_iter ?std::iter::Iterator::next std::option::Option::<T>::get_or_insert_with
 serde::de::impls::<impl serde::Deserialize<'de> for (T0, T1)>::deserialize serde::ser::impls::<impl serde::Serialize for (T0, T1)>::serialize
 ?serde::Deserializer::deserialize_i64 ?serde::Deserializer::deserialize_option ?serde::Deserializer::deserialize_str ?serde::Serializer::collect_str
